@@ -39,7 +39,7 @@ RULE += ' ' + 'The fixture holds handles pickled by the released version (Cache,
 RULE += ' ' + "A plain Cache object scenario loads the handle's first pickle again later while another handle changes stored settings in between."
 ASSUMPTIONS = ['a real fork() carrying an open SQLite handle is not simulated; the pid-change seam checks the library\'s reaction to it',
                'the fixture was written on POSIX by the pinned release (fixtures/make_fixture.py)']
-PROBES = ('lifecycle', 'fork', 'thread_stretch', 'pickle', 'fixture_items', 'newproc', 'move', 'own_temporary_directory', 'released_pickles_loaded', 'parent_reopened_with_settings', 'old_pickle_loaded', 'setting_changed_by_other_handle')
+PROBES = ('lifecycle', 'fork', 'thread_stretch', 'pickle', 'fixture_items', 'newproc', 'move', 'own_temporary_directory', 'released_pickles_loaded', 'parent_reopened_with_settings', 'old_pickle_loaded', 'setting_changed_by_other_handle', 'stale_handle_writes_its_value_back')
 TECHNIQUE = 'deterministic simulation (simulated processes, pid seam, thread tasks, virtual clock) + model-based checking across lifecycle events; golden-directory regression of the released on-disk format'
 LEVEL_TEXT = ('seeded exploration of histories with lifecycle events under the simulator (process identity and threads are simulated, so '
               'fork and cross-process sharing are replayable), each call compared with the reference model through whichever handle is '
@@ -361,8 +361,16 @@ def run_objects(case):
                     other = dc.Cache(path)
                     other.reset(key, value)
                     other.close()
-                    o.reset(key)
-                    stored[key] = value
+                    if rng.random() < 0.4:
+                        # ... and this handle, which has not looked, writes the value it was working with all along: the last
+                        # value written is the stored one
+                        mine = getattr(o, key)
+                        o.reset(key, mine)
+                        stored[key] = mine
+                        probes['stale_handle_writes_its_value_back'] = 1
+                    else:
+                        o.reset(key)
+                        stored[key] = value
                     probes['setting_changed_by_other_handle'] = 1
 
             def observe(o):
